@@ -228,9 +228,12 @@ def _sql_rounds(variant, symbolic_tail):
 from harness.c05 import FUNCS as _SQLF  # noqa: E402
 
 for _variant in ("class", "table"):
-    ob("C08", "P1.rounds.sqlalchemy_%s" % _variant, {"tail": R(0, len(SQL_TAILS) - 1), "t": R(0, len(SQL_TYPES) - 1), "dflt": BOOL}, T=900, tpath=120, funcs=_SQLF,
-       assumes=[ADHOC_SHIMS_DOC], bound="sqlalchemy %s emit->parse four times: column description 'the text'+tail for tails %r x types %r x with/without default, "
-       "return entry present for odd tails: each round equals the previous (solver-enumerated)" % (_variant, SQL_TAILS, SQL_TYPES))(_sql_rounds(_variant, False))
+    for _tl in range(0, len(SQL_TAILS), 3):
+        _th = min(_tl + 2, len(SQL_TAILS) - 1)
+        ob("C08", "P1.rounds.sqlalchemy_%s.t%d" % (_variant, _tl), {"tail": R(_tl, _th), "t": R(0, len(SQL_TYPES) - 1), "dflt": BOOL}, T=900, tpath=120, funcs=_SQLF,
+           tier="quick" if _variant == "class" or _tl == 0 else "thorough",
+           assumes=[ADHOC_SHIMS_DOC], bound="sqlalchemy %s emit->parse four times: column description 'the text'+tail for tails %r x types %r x with/without default, "
+           "return entry present for odd tails: each round equals the previous (solver-enumerated)" % (_variant, SQL_TAILS[_tl:_th + 1], SQL_TYPES))(_sql_rounds(_variant, False))
     ob("C08", "P1.rounds.sqlalchemy_%s.tail2" % _variant, {"tail": R(0, 0), "t": R(0, 1), "dflt": BOOL, "x": PR, "y": PR}, pre="x != 47 and y != 47", T=2400, tpath=120,
        tier="thorough", funcs=_SQLF, assumes=[ADHOC_SHIMS_DOC],
        bound="sqlalchemy %s emit->parse four times: str/int column whose description is 'the text' + ANY two printable characters (except '/'), with/without default" % _variant,
